@@ -81,8 +81,8 @@ def random_scenario(rng: random.Random, c: dict) -> dict:
             a, b = rng.randrange(nb), rng.randrange(nb)
             pat = '*' if rng.random() < 0.7 else rng.randrange(c['levels'])
             key = (a, b, 'w' if pat == '*' else 't')
-            if (a, b) in seen:
-                continue  # at most one edge per (src, dst): duplicate edges are F17
+            if (a, b) in seen and rng.random() < 0.7:
+                continue  # usually one edge per (src, dst); sometimes a second route to the same bus (typed + wildcard, or twice)
             seen.add((a, b))
             fwd.append([a, b, pat])
     handlers = []
@@ -101,7 +101,7 @@ def random_scenario(rng: random.Random, c: dict) -> dict:
         for _ in range(rng.randint(*c['actor_ops'])):
             x = rng.random()
             if x < c['p_idle']:
-                ops.append(['idle', rng.randrange(nb), None])
+                ops.append(['idle', rng.randrange(nb), rng.choice([None, None, None, 0.05, 0.5])])
             elif x < c['p_idle'] + c['p_actor_redisp'] and nd:
                 ops.append(['redisp', rng.randrange(nd), rng.randrange(nb) if rng.random() < 0.0 else -1])
             elif x < c['p_idle'] + c['p_actor_redisp'] + 0.12 and nd:
@@ -246,13 +246,16 @@ def cancel_derive(sc: dict, t: float, rng: random.Random):
 
 def timeout_base(rng: random.Random, i: int) -> dict:
     """parent -> child -> grandchild shapes, fire/await mixes, several handlers per event, one later event."""
-    c = cfg(nb=(1, 2), levels=4, p_lazy=0.0, p_raise=0.0, p_retexc=0.0, p_busy=0.0, p_bus=0.0, p_sync=0.1, p_wild=0.0, prog_len=(1, 4), handlers_per=(1, 1, 2), n_actors=(1, 1), actor_ops=(1, 1), jitter=False, p_strpat=0.0)
+    c = cfg(nb=(1, 2), levels=4, p_lazy=0.0, p_raise=0.08, p_retexc=0.03, p_busy=0.0, p_bus=0.0, p_sync=0.1, p_wild=0.0, prog_len=(1, 4), handlers_per=(1, 1, 2), n_actors=(1, 1), actor_ops=(1, 1), jitter=False, p_strpat=0.0)
     sc = random_scenario(rng, c)
     nb = len(sc['buses'])
+    for h in sc['handlers']:
+        if h['kind'][0] == 'a' and rng.random() < 0.25:
+            h['cleanup'] = rng.choice([0.01, 0.15, 0.4])  # needs this long to unwind after being cancelled
     # the root is the first actor's first dispatch: make it level 0 on bus 0, awaited, then a later event + idle
     sc['actors'] = [[['disp', 0, 0, 'await', 0, {}]], [['sleep', rng.choice([0.0, 0.05, 0.3])], ['disp', 1, rng.randrange(nb), 'await', 0, {}]]]
     # make sure the root has at least one awaiting handler with a child that itself awaits a grandchild
-    sc['handlers'].insert(0, {'bus': 0, 'pat': 0, 'kind': 'async', 'prog': [['sleep', rng.choice([0.05, 0.1])], ['disp', 1, rng.randrange(nb), 'fire', None, {}], ['disp', 1, rng.randrange(nb), 'await', rng.choice([None, 0, 0.05]), {}], ['sleep', 0.1]]})
+    sc['handlers'].insert(0, {'bus': 0, 'pat': 0, 'kind': 'async', 'prog': [['sleep', rng.choice([0.05, 0.1])], ['disp', 1, rng.randrange(nb), 'fire', None, {}], ['disp', 1, rng.randrange(nb), 'await', rng.choice([None, 0, 0.05]), {}], ['sleep', 0.1]], 'cleanup': rng.choice([0, 0, 0.15, 0.4])})
     sc['handlers'].append({'bus': 0, 'pat': 0, 'kind': 'async', 'prog': [['sleep', 0.05]]})
     return sc
 
@@ -260,6 +263,13 @@ def timeout_base(rng: random.Random, i: int) -> dict:
 def timeout_derive(sc: dict, t: float, rng: random.Random):
     if t <= 1e-9:
         return
+    # other events carry timeouts of their own (different from the enumerated one), so a timeout applied to the wrong
+    # event shows: some shorter, some much longer than anything in the program
+    if rng.random() < 0.6:
+        for h in sc['handlers']:
+            for op in h['prog']:
+                if op[0] == 'disp' and rng.random() < 0.5:
+                    op[5] = dict(op[5] or {}, timeout=rng.choice([0.02, 0.07, 0.25, 2.0, 9.0]))
     which = rng.random()
     if which < 0.7:
         sc['actors'][0][0][5] = {'timeout': t}
@@ -370,3 +380,55 @@ def wal_scenario(rng: random.Random, i: int) -> dict:
         n = sorted(rng.sample(range(1, 12), rng.randint(1, 3)))
         sc['wal_fault'] = {'kind': rng.choice(['open', 'write']), 'n': n}
     return sc
+
+
+def later_scenario(rng: random.Random, i: int) -> dict:
+    """A handler dispatches several children, awaits them in a different order than it dispatched them, after other
+    work; children have fire-and-forget descendants of their own (so 'own handlers done' != 'tree done')."""
+    nb = rng.choice([1, 1, 2])
+    buses = [{'name': f'B{k}', 'par': False, 'lazy': rng.random() < 0.2, 'hist': None} for k in range(nb)]
+    hs = []
+    prog = []
+    n_ch = rng.randint(2, 4)
+    for k in range(n_ch):
+        prog.append(['disp', 1 + (k % 2), rng.randrange(nb) if rng.random() < 0.3 else 0, rng.choice(['later', 'later', 'await', 'fire']), rng.choice([None, 0, 0.05]), {}])
+        if rng.random() < 0.3:
+            prog.append(['sleep', rng.choice(SHORT)])
+    rng.shuffle(prog)
+    hs.append({'bus': 0, 'pat': 0, 'kind': rng.choice(['async', 'amethod']), 'prog': prog})
+    for t in (1, 2):
+        for b in range(nb):
+            hs.append({'bus': b, 'pat': t, 'kind': rng.choice(['async', 'sync']), 'prog': [['disp', 3, rng.randrange(nb), 'fire', None, {}]] + ([['sleep', rng.choice(SHORT)]] if rng.random() < 0.5 else [])})
+    for b in range(nb):
+        hs.append({'bus': b, 'pat': 3, 'kind': 'async', 'prog': [['sleep', rng.choice([0, 0.05, 0.3])]] if rng.random() < 0.7 else [['disp', 4, b, 'fire', None, {}]]})
+        hs.append({'bus': b, 'pat': 4, 'kind': 'async', 'prog': [['sleep', rng.choice(SHORT)]]})
+    actors = [[['disp', 0, 0, rng.choice(['await', 'fire']), rng.choice(SHORT), {}], ['await', 0]]]
+    if rng.random() < 0.5:
+        actors.append([['sleep', rng.choice(SHORT)], ['disp', rng.choice([0, 1, 3]), rng.randrange(nb), 'await', 0, {}]])
+    sc = {'seed': rng.randrange(1 << 30), 'buses': buses, 'fwd': [], 'handlers': hs, 'actors': actors}
+    if rng.random() < 0.5:
+        sc['loop'] = {'jitter': 1e-7}
+    return sc
+
+
+def error_base(rng: random.Random, i: int) -> dict:
+    """A root event with several handlers (often on a parallel_handlers bus) whose children are processed while a
+    sibling handler raises at an enumerated instant; plus later events. The raiser is the LAST handler registered."""
+    c = cfg(nb=(1, 3), levels=4, p_par=0.0, p_lazy=0.1, p_raise=0.0, p_retexc=0.0, p_busy=0.02, p_sync=0.15, p_wild=0.05, prog_len=(1, 3), handlers_per=(1, 1, 2), n_actors=(1, 1), actor_ops=(1, 1), jitter=False, p_fwd=0.3)
+    sc = random_scenario(rng, c)
+    nb = len(sc['buses'])
+    sc['buses'][0]['par'] = rng.random() < 0.7
+    sc['handlers'].insert(0, {'bus': 0, 'pat': 0, 'kind': 'async', 'prog': [['disp', 1, rng.randrange(nb), 'await', rng.choice([None, 0, 0.05]), {}], ['sleep', rng.choice(SHORT)]]})
+    for b in range(nb):
+        sc['handlers'].append({'bus': b, 'pat': 1, 'kind': 'async', 'prog': [['sleep', rng.choice([0.05, 0.1, 0.3])]]})
+        sc['handlers'].append({'bus': b, 'pat': 1, 'kind': rng.choice(['async', 'sync']), 'prog': [['disp', 2, rng.randrange(nb), 'fire', None, {}]] if rng.random() < 0.5 else []})
+    sc['actors'] = [[['disp', 0, 0, 'await', 0, {}]], [['sleep', rng.choice([0.0, 0.05, 0.3])], ['disp', 1, rng.randrange(nb), 'await', 0, {}], ['disp', 0, 0, 'await', 0, {}]]]
+    sc['handlers'].append({'bus': 0, 'pat': 0, 'kind': 'async', 'prog': [['sleep', 0.0], ['raise', rng.choice(EXCS)]], 'raiser': True})
+    return sc
+
+
+def error_derive(sc: dict, t: float, rng: random.Random):
+    for h in sc['handlers']:
+        if h.get('raiser'):
+            h['prog'][0][1] = t
+    yield sc
